@@ -15,6 +15,12 @@ A *case* is a history over two registry instances and up to three threads:
     ("cur", t, h, tr)       h = Span::current()  (tr=1: SpanTrace::new(Span::current()))
     ("event", t, kind, hp)  an event; layer 1 records lookup_current / event_span / event_scope / a dump of every span
     ("read", t, h)          SpanTrace::with_spans / span(id).scope() through the handle's own dispatch
+    ("pdrop", t, h)         the handle is dropped while a (contained) panic unwinds          (model: drop)
+    ("hold", t, k, h) ("poke", t, k) ("release", t, k)
+                            keep a SpanRef (slab guard) obtained by `registry.span(&id)` across other operations, write an
+                            extension through it, drop it.  Histories with these ops ("guards" mode) are judged by the
+                            oracle only: Registry/Model.v has no slab guards.
+A `new` op may carry a 6th component 1 = the span is DEBUG (disabled for the outermost, per-subscriber-filtered layer FRec).
 """
 import json
 import os
@@ -100,7 +106,7 @@ class Gen:
     def gen(self):
         r = self.r
         # prologue: defaults
-        if self.mode == "single":
+        if self.mode in ("single", "guards"):
             inst = 0 if self.glob else r.choice([0, 0, 0, 1])
             if not self.glob:
                 for t in range(self.nt):
@@ -140,6 +146,8 @@ class Gen:
                 del self.defs[t]
                 return self.emit("unsetdef", t)
             return self.op_setdef(t, r.choice([0, 1, 0, 1, -1]))
+        if self.mode == "guards" and x < 0.22:
+            return self.op_guard()
         w = r.random()
         if w < 0.24:
             return self.op_new()
@@ -169,22 +177,35 @@ class Gen:
         i = self.eff(t)
         k = r.random()
         h = self.new_h()
+        dbg = 1 if r.random() < 0.4 else 0      # DEBUG spans are disabled for the filtered layer
         if k < 0.5:
-            self.emit("new", t, h, "c", 0)
+            self.emit("new", t, h, "c", 0, dbg)
         elif k < 0.65:
-            self.emit("new", t, h, "r", 0)
+            self.emit("new", t, h, "r", 0, dbg)
         else:
             cands = [x for x in self.live("S", real=False) if self.mode == "chaos" and r.random() < 0.15 or self.handles[x]["inst"] in (i, None)]
             if not cands:
-                self.emit("new", t, h, "c", 0)
+                self.emit("new", t, h, "c", 0, dbg)
             else:
-                self.emit("new", t, h, "e", r.choice(cands))
+                self.emit("new", t, h, "e", r.choice(cands), dbg)
         if i is None:
             self.handles[h] = {"q": None, "inst": None, "kind": "S"}
         else:
             self.handles[h] = {"q": self.nq, "inst": i, "kind": "S"}
             self.span_inst[self.nq] = i
             self.nq += 1
+
+    def op_new_forced(self):
+        """a root span on a thread that has a collector (slot reuse after the clean-up of a guards history)"""
+        ts = [t for t in range(self.nt) if self.eff(t) is not None]
+        if not ts or self.nq >= 28:
+            return
+        t = self.r.choice(ts)
+        h = self.new_h()
+        self.emit("new", t, h, "r", 0, 0)
+        self.handles[h] = {"q": self.nq, "inst": self.eff(t), "kind": "S"}
+        self.span_inst[self.nq] = self.eff(t)
+        self.nq += 1
 
     def op_clone(self):
         c = self.live()
@@ -203,7 +224,9 @@ class Gen:
         t = self.pick_thread(self.handles[h]["inst"])
         if t is None:
             return
-        self.emit("drop", t, h)
+        # (not in chaos mode: after a mis-routed release try_close may find no span, and then it panics only when the
+        #  thread is not already panicking — the one place where a drop during unwinding differs from a plain drop)
+        self.emit("pdrop" if self.mode != "chaos" and self.r.random() < 0.15 else "drop", t, h)
         del self.handles[h]
 
     def op_enter(self):
@@ -284,6 +307,47 @@ class Gen:
         else:
             self.emit("event", t, "e", r.choice(c))
 
+    def op_guard(self):
+        """hold / poke / release of a SpanRef; releases stay on threads whose default is the span's collector"""
+        r = self.r
+        held = getattr(self, "held", None)
+        if held is None:
+            held = self.held = {}
+            self.next_k = 1
+        x = r.random()
+        if (x < 0.4 or not held) and len(held) < 3:
+            c = [h for h in self.live("S") if self.handles[h]["q"] is not None and self.handles[h]["q"] >= 0]
+            if not c:
+                return self.op_new()
+            h = r.choice(c[-4:]) if r.random() < 0.7 else r.choice(c)
+            t = self.pick_thread(self.handles[h]["inst"])
+            if t is None:
+                return
+            k = self.next_k
+            self.next_k += 1
+            self.emit("hold", t, k, h)
+            held[k] = (t, self.handles[h]["inst"])
+            # very often the held span loses its handles right away: that is the interesting order
+            if r.random() < 0.7:
+                q = self.handles[h]["q"]
+                for hh in [y for y, v in self.handles.items() if v["q"] == q and v["kind"] == "S"]:
+                    tt = self.pick_thread(self.handles[hh]["inst"])
+                    if tt is not None:
+                        self.emit("drop", tt, hh)
+                        del self.handles[hh]
+        elif x < 0.7 and held:
+            k = r.choice(sorted(held))
+            self.emit("poke", held[k][0], k)
+        elif held:
+            k = r.choice(sorted(held))
+            t, inst = held[k]
+            if self.eff(t) != inst:
+                return
+            self.emit("release", t, k)
+            del held[k]
+            for _ in range(r.randrange(0, 4)):      # give the allocator a chance to hand the slot out again
+                self.op_new()
+
     def op_read(self):
         c = self.live(real=False)
         if not c:
@@ -321,6 +385,8 @@ class Gen:
         """release everything in a random order so that spans actually close (cascades, out-of-order)"""
         r = self.r
         acts = []
+        for k, (t, inst) in getattr(self, "held", {}).items():
+            acts.append(("r", k, t, inst))
         for g, (t, q, inst) in self.guards.items():
             acts.append(("g", g, t, inst))
         for t in range(self.nt):
@@ -341,11 +407,20 @@ class Gen:
                 if self.mode != "chaos" and self.eff(t) != inst:
                     continue
                 self.emit("exit", t, x)
+            elif kind == "r":
+                if self.eff(t) != inst:
+                    continue
+                if r.random() < 0.5:
+                    self.emit("poke", t, x)
+                self.emit("release", t, x)
             else:
                 tt = self.pick_thread(inst)
                 if tt is None:
                     continue
                 self.emit("drop", tt, x)
+        if self.mode == "guards":
+            for _ in range(5):
+                self.op_new_forced()
         if r.random() < 0.7:
             t = r.randrange(self.nt)
             self.emit("event", t, "c", 0)
@@ -361,6 +436,8 @@ def gen_cases(ctx, n):
     for k in range(n):
         x = rng.random()
         mode = "single" if x < 0.5 else ("two" if x < 0.7 else "chaos")
+        if k % 6 == 5:
+            mode = "guards"           # SpanRefs held across closes: oracle only (no slab guards in Registry/Model.v)
         glob = 1 if rng.random() < 0.15 else 0
         nthreads = rng.choice([1, 2, 2, 3, 3])
         length = rng.choice([8, 15, 25, 40, 60]) if not ctx.thorough() else rng.choice([10, 25, 40, 60, 90])
@@ -377,8 +454,8 @@ def case_text(c):
         k = op[0]
         if k in ("new", "event"):
             if k == "new":
-                _, t, h, kind, hp = op
-                lines.append("new %d %d %s%s" % (t, h, kind, (" %d" % hp) if kind == "e" else ""))
+                _, t, h, kind, hp = op[:5]
+                lines.append("new %d %d %s%s%s" % (t, h, kind, (" %d" % hp) if kind == "e" else "", " d" if len(op) > 5 and op[5] else ""))
             else:
                 _, t, kind, hp = op
                 lines.append("event %d %s%s" % (t, kind, (" %d" % hp) if kind == "e" else ""))
@@ -401,7 +478,7 @@ def parse_case_text(text):
             cases.append(cur)
             cur = None
         elif f[0] == "new":
-            cur["ops"].append(("new", int(f[1]), int(f[2]), f[3], int(f[4]) if f[3] == "e" else 0))
+            cur["ops"].append(("new", int(f[1]), int(f[2]), f[3], int(f[4]) if f[3] == "e" else 0, 1 if f[-1] == "d" else 0))
         elif f[0] == "event":
             cur["ops"].append(("event", int(f[1]), f[2], int(f[3]) if f[2] == "e" else 0))
         else:
@@ -437,7 +514,7 @@ def norm_impl_obs(o):
         return ("foreignparent",)
     if k == "newgone":
         return ("newgone", o["i"], o["l"], o["q"])
-    return None   # alloc and other harness-only lines
+    return None   # alloc, fevent (the filtered layer's view), hold: harness-only lines, judged by the oracle
 
 
 def run_impl(ctx, binpath, cases):
@@ -528,7 +605,7 @@ def model_ops(case, impl):
     for k, op in enumerate(case["ops"]):
         name = op[0]
         if name == "new":
-            _, t, h, kind, hp = op
+            _, t, h, kind, hp = op[:5]
             a = (0, 0)
             if impl is not None and k < len(impl["ops"]):
                 for o in impl["ops"][k]:
@@ -538,7 +615,7 @@ def model_ops(case, impl):
             groups.append(["ONewSpan %d %d %s (%d%%N, %d%%N)" % (t, h, coq_pk(kind, hp), a[0], a[1])])
         elif name == "clone":
             groups.append(["OClone %d %d %d" % op[1:]])
-        elif name == "drop":
+        elif name in ("drop", "pdrop"):          # dropped during a contained unwind: the same registry calls
             groups.append(["ODrop %d %d" % op[1:]])
         elif name == "enter":
             groups.append(["OEnter %d %d" % op[1:]])
@@ -567,8 +644,11 @@ def model_ops(case, impl):
     return groups
 
 
-def norm_model_obs(o):
-    """parsed Coq constructor -> canonical tuple (None = model-only observation)"""
+def norm_model_obs(o, nl=None):
+    """parsed Coq constructor -> canonical tuple (None = model-only observation).  nl: instance -> number of recording
+    layers; frame 0 (ErrorSubscriber) and frame nl+1 (the filtered layer FRec) are Layered frames that record nothing here"""
+    def hidden(i, l):
+        return l == 0 or (nl is not None and l > nl.get(i, 99))
     if isinstance(o, str):
         return {"OForeignParent": ("foreignparent",), "OBadAlloc": ("badalloc",), "OFuel": ("fuel",)}[o]
     c = o[0]
@@ -578,15 +658,15 @@ def norm_model_obs(o):
 
     if c == "ONew":
         _, i, l, q, stale, par = o
-        if l == 0:
-            return None                    # the ErrorSubscriber frame: not a recording layer
+        if hidden(i, l):
+            return None
         p = None if par is None else (-1 if par[1] is None else par[1][1])
         return ("new", i, l, q, optn(stale), p)
     if c == "OClose":
         _, i, l, q, ext = o
-        return None if l == 0 else ("close", i, l, q, optn(ext))
+        return None if hidden(i, l) else ("close", i, l, q, optn(ext))
     if c == "OCloseGone":
-        return None if o[2] == 0 else ("closegone", o[1], o[2])
+        return None if hidden(o[1], o[2]) else ("closegone", o[1], o[2])
     if c == "OEvent":
         _, i, cur, espan, escope, efr, dump = o
         return ("event", i, optn(cur), optn(espan), tuple(escope), tuple(efr),
@@ -615,7 +695,8 @@ def run_model(ctx, cases, impl, tag="cases"):
             g = model_ops(c, impl.get(c["id"]))
             groups_of[c["id"]] = g
             flat = [x for grp in g for x in grp]
-            items.append("run_case %d %d %s [%s]" % (c["n0"] + 1, c["n1"] + 1, "(Some 0)" if c["global"] else "None", "; ".join(flat)))
+            # Layered frames per instance: ErrorSubscriber + the recording layers + the filtered layer
+            items.append("run_case %d %d %s [%s]" % (c["n0"] + 2, c["n1"] + 2, "(Some 0)" if c["global"] else "None", "; ".join(flat)))
         terms.append(("b%d" % b, "[%s]" % "; ".join(items)))
     res = coq_eval(ctx, "From TV Require Import Registry.Model.\nFrom Coq Require Import List NArith.\nImport ListNotations.", terms, tag=tag)
     out = {}
@@ -631,7 +712,7 @@ def run_model(ctx, cases, impl, tag="cases"):
                 merged = []
                 for _ in grp:
                     for o in per_op[pos]:
-                        n = norm_model_obs(o)
+                        n = norm_model_obs(o, {0: c["n0"], 1: c["n1"]})
                         if n is None:
                             continue
                         if n[0] == "route":
@@ -663,10 +744,13 @@ def diff_case(case, impl, model):
 # IMPLEMENTATION reported.  Knows nothing about reference counts, slots or stacks.
 
 class Span:
-    __slots__ = ("q", "inst", "parent", "handles", "entries", "open_children", "closed", "raw", "children")
+    __slots__ = ("q", "inst", "parent", "handles", "entries", "open_children", "closed", "raw", "children", "dbg", "guards", "deferred")
 
-    def __init__(self, q, inst, parent, raw):
+    def __init__(self, q, inst, parent, raw, dbg=0):
         self.q, self.inst, self.parent, self.raw = q, inst, parent, raw
+        self.dbg = dbg           # DEBUG level: disabled for the filtered layer
+        self.guards = 0          # SpanRefs (slab guards) held on it
+        self.deferred = False    # reported closed while a guard was held: its parent reference is released with the last guard
         self.handles = 1
         self.entries = {}        # thread -> number of entries (re-entries included)
         self.open_children = 0
@@ -695,6 +779,8 @@ class Oracle:
         self.stats = {"closed_with_child": 0, "ooo_exit": 0, "drop_while_entered": 0, "max_depth": 0,
                       "two_threads": 0, "reentry": 0, "closes": 0, "cascade": 0, "reuse": 0}
         self.seen_raw = {}
+        self.refs = {}           # k -> q: held SpanRefs
+        self.poked = set()       # spans whose extensions were overwritten (with 900 + q) through a held SpanRef while alive
 
     # -- helpers
     def eff(self, t):
@@ -766,6 +852,14 @@ class Oracle:
         expect.append(q)
         if s.children:
             self.stats["closed_with_child"] += 1
+        if s.guards > 0:
+            # sharded_slab only marks the slot; Clear for DataInner (parent release) runs when the last guard goes
+            s.deferred = True
+            return
+        self.release_parent(k, q, t, nested, expect)
+
+    def release_parent(self, k, q, t, nested, expect):
+        s = self.spans[q]
         p = s.parent
         if p is None:
             return
@@ -815,7 +909,31 @@ class Oracle:
                 self.hkind[h2] = self.hkind[h]
                 if self.handles[h] is not None and not pan:
                     self.spans[self.handles[h]].handles += 1
-        elif name == "drop":
+        elif name == "hold":
+            _, _, kk, h = op
+            got = [o for o in raw if o["k"] == "hold"]
+            q = self.handles.get(h) if self.hkind.get(h) == "S" else None
+            if kk not in self.refs and q is not None:
+                if got and got[0]["q"] == q:
+                    self.refs[kk] = q
+                    self.spans[q].guards += 1
+                elif not self.spans[q].closed and q not in self.tainted:
+                    self.bad("C06", "span %d held by a live handle could not be looked up by its id" % q, k, (q,))
+        elif name == "poke":
+            q = self.refs.get(op[2])
+            if q is not None and not self.spans[q].closed:
+                self.poked.add(q)        # written while the span is alive: its layers will read that value at close
+        elif name == "release":
+            kk = op[2]
+            if kk in self.refs:
+                q = self.refs.pop(kk)
+                s = self.spans[q]
+                s.guards -= 1
+                if s.guards == 0 and s.deferred:
+                    s.deferred = False
+                    # Clear for DataInner runs here, on this thread, outside any get_default closure
+                    self.release_parent(k, q, t, False, expect)
+        elif name in ("drop", "pdrop"):
             h = op[2]
             if h in self.handles:
                 q = self.handles.pop(h)
@@ -903,7 +1021,8 @@ class Oracle:
             self.release(k, q, t, True, expect)
 
     def op_new(self, k, op, raw, obs):
-        _, t, h, kind, hp = op
+        _, t, h, kind, hp = op[:5]
+        dbg = op[5] if len(op) > 5 else 0
         if h in self.handles:
             return
         i = self.eff(t)
@@ -933,7 +1052,7 @@ class Oracle:
             parent = news[0][5] if news and news[0][5] is not None and news[0][5] >= 0 else None
         if parent is not None and self.spans[parent].closed and parent not in self.tainted:
             self.bad("C06", "span %d created with parent %d which the specification says is closed" % (q, parent), k)
-        s = Span(q, i, parent, rawid)
+        s = Span(q, i, parent, rawid, dbg)
         # C05 unique ids: no live span of the same instance has this id
         for v in self.spans.values():
             if v.inst == i and v.raw == rawid:
@@ -1021,6 +1140,39 @@ class Oracle:
                     self.bad_or_f2(f2, "C06", "event_scope is %s, ancestors leaf to root are %s" % (list(escope), list(wsc)), k)
                 if efr != tuple(reversed(wsc)):
                     self.bad_or_f2(f2, "C06", "event_scope().from_root() is %s, ancestors root to leaf are %s" % (list(efr), list(reversed(wsc))), k)
+        # ---- the same event as the FILTERED layer sees it (per-subscriber filter: DEBUG spans do not exist for it):
+        # its current span is the most recently entered, not yet exited span on this thread THAT ITS FILTER ENABLES
+        fevs = [o for o in self.impl["ops"][k] if o["k"] == "fevent"]
+        if not fevs:
+            self.bad("C06", "event not delivered to the filtered layer of instance %d" % i, k)
+        elif known:
+            fe = fevs[0]
+            ent = self.ene.get((i, t), [])
+            vis = [q for q in ent if not self.spans[q].dbg]
+            fwant = vis[-1] if vis else None
+            f2 = any(q in self.tainted or not self.chain_ok(q) for q in ent)
+            if fe["cur"] != fwant:
+                self.bad_or_f2(f2, "C06", "filtered layer: lookup_current on thread %d is %s; entered and not exited are %s of which its filter enables %s, "
+                               "so the most recently entered enabled one is %s" % (t, fe["cur"], ent, vis, fwant), k)
+            if kind == "r":
+                fspan, fk = None, True
+            elif kind == "c":
+                fspan, fk = fwant, True
+            else:
+                fspan = self.handles.get(hp) if self.hkind.get(hp) == "S" else None
+                fk = fspan is None or (self.spans[fspan].inst == i and not self.spans[fspan].dbg)
+            if fk:
+                if fe["espan"] != fspan:
+                    self.bad_or_f2(f2 or (fspan is not None and not self.chain_ok(fspan)), "C06",
+                                   "filtered layer: event_span is %s, expected %s (%s)" % (fe["espan"], fspan, kind), k)
+                else:
+                    fsc = [a for a in self.ancestors(fspan) if not self.spans[a].dbg] if fspan is not None else []
+                    if list(fe["escope"]) != fsc:
+                        self.bad_or_f2(f2 or (fspan is not None and not self.chain_ok(fspan)), "C06",
+                                       "filtered layer: event_scope is %s, enabled ancestors leaf to root are %s" % (fe["escope"], fsc), k)
+                    if list(fe["efromroot"]) != list(reversed(fsc)):
+                        self.bad_or_f2(f2 or (fspan is not None and not self.chain_ok(fspan)), "C06",
+                                       "filtered layer: event_scope().from_root() is %s, expected %s" % (fe["efromroot"], list(reversed(fsc))), k)
         # the dump: every span of this instance created so far
         rawdump = [o for o in self.impl["ops"][k] if o["k"] == "event"][0]["dump"]
         for q, sc, fr, chain in rawdump:
@@ -1085,7 +1237,7 @@ class Oracle:
                 got_all = [o[3] for o in got_objs]
                 got = [q for q in got_all if q not in self.tainted]
                 for o in got_objs:
-                    if o[4] != o[3]:
+                    if o[4] != (900 + o[3] if o[3] in self.poked else o[3]):
                         self.bad("C05", "layer %d closing span %d read extension %s instead of its own data" % (l, o[3], o[4]), k, (o[3],))
                 if got_all == want_all:
                     continue
@@ -1214,15 +1366,20 @@ def run_common(ctx, prop, rep, proof_targets):
     cases = [c for c in cases if c["id"] not in missing]
     ctx.log("implementation ran %d cases" % len(cases))
     # ---- model on the same cases
+    # histories that hold SpanRefs across closes are judged by the oracle only (Registry/Model.v has no slab guards)
+    def oracle_only(c):
+        return any(op[0] in ("hold", "poke", "release") for op in c["ops"])
+    mcases = [c for c in cases if not oracle_only(c)]
+    rep.count("cases:oracle-only (SpanRef held across operations)", len(cases) - len(mcases))
     model = None
     try:
-        model = run_model(ctx, cases, impl)
+        model = run_model(ctx, mcases, impl)
     except Exception as ex:
         rep.tie("model-eval", False, str(ex)[:400])
     disagree = []
     n_route_bad = 0
     if model is not None:
-        for c in cases:
+        for c in mcases:
             d = diff_case(c, impl[c["id"]], model[c["id"]])
             if d:
                 disagree.append(d)
@@ -1230,8 +1387,8 @@ def run_common(ctx, prop, rep, proof_targets):
                 for x in o:
                     if x[0] in ("badalloc", "fuel"):
                         disagree.append({"case": c["id"], "model_says": x[0], "text": case_text(c)})
-        rep.tie("correspondence:registry-histories", not disagree, "%d of %d cases disagree" % (len(disagree), len(cases)), disagree[:1] or None)
-        rep.traces_validated += len(cases) - len(disagree)
+        rep.tie("correspondence:registry-histories", not disagree, "%d of %d cases disagree" % (len(disagree), len(mcases)), disagree[:1] or None)
+        rep.traces_validated += len(mcases) - len(disagree)
     ctx.log("model ran; %d disagreements" % len(disagree))
     # ---- oracle on the implementation's observations
     shrunk = 0
@@ -1254,7 +1411,7 @@ def run_common(ctx, prop, rep, proof_targets):
         rep.count("depth:%d" % st["max_depth"])
         if o.misroutes:
             rep.count("cases-with-misrouted-release(F2 class)")
-        if model is not None:
+        if model is not None and c["id"] in model:
             mflat = [x for oo in model[c["id"]]["ops"] for x in oo]
             if all(own == to for (_, own, to) in model[c["id"]]["routes"]) and not any(x[0] in ("ill", "foreignparent", "badalloc") for x in mflat):
                 rep.count("model: WellFormed and OwnDefault hold (the theorems apply to this history)")
@@ -1262,7 +1419,7 @@ def run_common(ctx, prop, rep, proof_targets):
             rep.count("cases-ill-formed(foreign parent): correspondence only")
         if r["stopped"]:
             rep.count("cases-stopped-by-panic")
-        if model is not None and prop == "C05":
+        if model is not None and prop == "C05" and c["id"] in model:
             # the model's OwnDefault predicate and the oracle's mis-route detection must agree
             mr = any(own != to for (_, own, to) in model[c["id"]]["routes"])
             if mr != bool(o.misroutes) and not o.off and not r["stopped"]:
@@ -1294,7 +1451,7 @@ def run_common(ctx, prop, rep, proof_targets):
         if not ok2:
             rep.tie("build:h_registry_sched", False, vlib.last_error(log2))
         else:
-            fixed = shapes_tr.analyse(ctx.repo)[3].get("clear") == 1
+            fixed = bool(shapes_tr.analyse(ctx.repo)[3].get("clear_resets"))
             rep.count("sched: Clear for DataInner variant = %s" % ("CLOSE_COUNT reset (F51 repaired)" if fixed else "as found (F51)"))
             S.run_leg(ctx, rep, paths2["h_registry_sched"], fixed)
     return rep
@@ -1315,7 +1472,7 @@ def replay_common(ctx, prop, rep, payload, proof_targets):
         if not ok2:
             rep.tie("build:h_registry_sched", False, vlib.last_error(log2))
             return rep
-        fixed = shapes_tr.analyse(ctx.repo)[3].get("clear") == 1
+        fixed = bool(shapes_tr.analyse(ctx.repo)[3].get("clear_resets"))
         S.replay_scenario(ctx, rep, paths2["h_registry_sched"], fixed, case["scenario"], case.get("run"))
         return rep
     ok, paths, log = vlib.cargo_build(ctx, "registry", ["h_registry"])
@@ -1331,9 +1488,10 @@ def replay_common(ctx, prop, rep, payload, proof_targets):
             continue
         rep.evaluations += 1
         try:
-            model = run_model(ctx, [c], impl, tag="replay")
-            d = diff_case(c, r, model[c["id"]])
-            rep.tie("correspondence:registry-histories", d is None, "replayed case", d)
+            if not any(op[0] in ("hold", "poke", "release") for op in c["ops"]):
+                model = run_model(ctx, [c], impl, tag="replay")
+                d = diff_case(c, r, model[c["id"]])
+                rep.tie("correspondence:registry-histories", d is None, "replayed case", d)
         except Exception as ex:      # noqa: BLE001
             rep.tie("model-eval", False, str(ex)[:300])
         o, fails = oracle_failures(c, r, prop)
